@@ -422,13 +422,19 @@ def run(ctx, only=None):
                      sample=desc if i in (2, 31) else None)
             ctx.hist["iff:%s:%s:%s" % (dname, op, "ok" if k == "ok" else impl)] += 1
             ctx.hist["iff:kind:" + kind.split(":")[0]] += 1
-            reqs.append((line, impl, desc))
+            big = len(out) > (1 << 22) or len(data) > (1 << 22)
+            if big:
+                # the real code wrote a tag with ~2**28 bytes of padding (a chunk that claims that much, a callback that keeps
+                # it): the model's byte lists are not made for that; what the real code left is still checked below
+                ctx.hist["iff:outside-model:huge-output"] += 1
+            else:
+                reqs.append((line, impl, desc))
             ncases += 1
             # the walker alone, and the specification-side reader against the independent parser
-            if rng.random() < 0.3:
+            if rng.random() < 0.3 and not big:
                 kw, rw = timed(lambda: real_walk(dname, data), 20)
                 reqs.append(("iff fmt=%s op=walk data=%s" % (dname, hx(data)), rw if kw == "ok" else classify(rw), dict(desc, op="walk")))
-            if rng.random() < 0.3:
+            if rng.random() < 0.3 and not big:
                 which = out if k == "ok" else data
                 reqs.append(("iff fmt=%s op=read data=%s" % (dname, hx(which)), read_answer(d, which), dict(desc, op="read", of="output" if k == "ok" else "input")))
             # ---- the statements on the real output, for the layouts that are what they seem
